@@ -627,9 +627,13 @@ package wire
 //@ fieldinv objectCache.objects v != nil && (forall k objRef :: has(v, k) ==> (len(v[k].errs) == 0 ==> validItem(v[k].val)))
 //@ func (*objectCache).get$1
 //@   requires oc != nil && (len(errs) == 0 ==> validItem(val))
+// C10: what a package-level object stands for is memoised under (import path, name), which identifies
+// the object among all loaded packages; two different objects therefore never share a cache entry,
+// whichever set or package mentions them first.
 //@ func (*objectCache).get
 //@   requires obj != nil
 //@   ensures len(errs) == 0 ==> validItem(val)
+//@   lensures [C10] obj.Pkg() != nil ==> ref.importPath == obj.Pkg().Path() && ref.name == obj.Name()
 //@   loop 1 invariant 0 <= i && i < len(spec.Names)
 //@ func (*objectCache).processExpr
 //@   requires expr != nil
